@@ -5,7 +5,9 @@ Written from the format descriptions (Prometheus text format 0.0.4, OpenMetrics 
 extension `{"name",label="v"}`, Graphite plaintext protocol `path SP value SP timestamp`), NOT from the library's
 parsers.  Everything is Bool/Option valued and structurally recursive so the driver can run it.
 
-  text line  := "# HELP " name SP text-without-LF
+  text line  := "# HELP " name SP help       help (text) := ( any char but '\' LF | '\' '\' | '\' 'n' )*   (0.0.4: a HELP docstring
+                                                            knows exactly the escapes \\ and \n; '\"' is an invalid sequence)
+                                                          help (OM)   := the body of a quoted string (escaped-string of the ABNF)
               | "# TYPE " name SP ("counter"|"gauge"|"summary"|"histogram"|"untyped")
               | sample
   OM line    := "# HELP " … | "# TYPE " name SP <OpenMetrics type> | "# UNIT " name SP unit | "# EOF" | sample exemplar?
@@ -85,6 +87,21 @@ def qscan (esc : Bool) : Str → Option Str
     else if c = '"' then some r
     else if c = '\n' then none
     else qscan false r
+
+/-- HELP docstring of the text format 0.0.4: every backslash is half of `\\` or starts `\n`; no raw LF.
+`esc` = the previous character was an unescaped backslash -/
+def hscan (esc : Bool) : Str → Bool
+  | [] => !esc
+  | c :: r =>
+    if esc then (if c = '\\' ∨ c = 'n' then hscan false r else false)
+    else if c = '\\' then hscan true r
+    else if c = '\n' then false
+    else hscan false r
+
+/-- the docstring of a HELP line: text format — `hscan`; OpenMetrics — an `escaped-string`, i.e. what may stand between
+two quotes (no raw quote, backslash or LF; escapes `\\`, `\"`, `\n`) -/
+def helpText (om : Bool) (t : Str) : Bool :=
+  if om then qscan false (t ++ ['"']) == some [] else hscan false t
 
 /-- inside a bare name of a metadata line: up to and including the separating space -/
 def bareTail : Str → Option Str
@@ -195,7 +212,7 @@ def classify (om : Bool) (l : Str) : Option Kind :=
   match stripPrefix "# HELP ".toList l with
   | some r =>
     (match metaName r with
-     | some t => if t.contains '\n' then none else some .help
+     | some t => if helpText om t then some .help else none
      | none => none)
   | none =>
   match stripPrefix "# TYPE ".toList l with
